@@ -55,6 +55,11 @@ while [ $# -gt 0 ]; do
 done
 base=$(basename "$input"); stem="${base%.*}"
 out="$outdir/$stem.$fmt"
+# C_MODE may be a comma-separated list: the n-th conversion of this export behaves like the n-th entry
+# (the last entry repeats) - a converter that is retried sees a process that behaves differently each time
+n=$(cat "$CTL/count_$SEQ" 2>/dev/null || echo 0); n=$((n + 1)); echo "$n" > "$CTL/count_$SEQ"
+modes="$C_MODE"; i=1; C_MODE="${modes%%,*}"
+while [ "$i" -lt "$n" ] && [ "$modes" != "${modes#*,}" ]; do modes="${modes#*,}"; C_MODE="${modes%%,*}"; i=$((i + 1)); done
 echo "CONVERT $C_MODE $fmt" >> "$CTL/log"
 echo "INPUT $(sha256sum < "$input" | cut -c1-64)" >> "$CTL/log"
 wrote() { printf 'WROTE %s %s\n' "$(sha256sum < "$1" | cut -c1-64)" "$1" >> "$CTL/log"; }
@@ -94,7 +99,10 @@ exit 0
 
 V_MODES_FAIL = ["fail", "garbage", "old", "missing"]
 C_MODES_FAIL = ["fail_before", "fail_after_partial", "fail_after_complete", "no_output", "wrong_name", "vanish",
-                "wipe_outdir"]
+                "wipe_outdir", "fail_after_partial,no_output", "fail_after_complete,no_output",
+                "fail_after_partial,fail_before", "no_output,fail_after_partial"]
+# sequences in which some attempt succeeds: an implementation that retries may legitimately succeed
+C_MODES_MAY = ["fail_before,ok", "fail_after_partial,ok", "no_output,ok"]
 NEAR_COPIES = ["identical", "crlf", "cr", "bom", "trailing_newline", "truncated", "latin1", "upper_first"]
 DIE_MODES = ["exit1", "exit77", "exit139", "exit255", "segv", "kill"]
 EXIT_CODES = list(range(1, 256))
@@ -157,6 +165,8 @@ def gen_fault(rng, kind: str, allow_e3_figure: bool, allow_e3_group: bool) -> di
     if r2 < 0.25:
         return {"kind": "V", "mode": rng.choice(V_MODES_FAIL)}
     if r2 < 0.7:
+        if rng.random() < 0.12:
+            return {"kind": "P", "mode": rng.choice(C_MODES_MAY), "die": rng.choice(DIE_MODES)}
         die = rng.choice(DIE_MODES) if rng.random() < 0.5 else f"code{rng.choice(EXIT_CODES)}"
         if rng.random() < 0.03:
             die = "stall"  # the process hangs after (partial) output; only meaningful if the converter has a time limit
@@ -860,7 +870,7 @@ def expected_failure(ev) -> bool:
     if fk == "T":
         return bool(ev.get("t_fired"))
     if fk == "P":
-        return f["mode"] in C_MODES_FAIL
+        return f["mode"] in C_MODES_FAIL and f["mode"] not in C_MODES_MAY
     if fk == "M":
         # a str path or a one-element list is "malformed" for today's type check, but an
         # implementation that accepts them and places the output correctly also satisfies
@@ -871,7 +881,8 @@ def expected_failure(ev) -> bool:
 
 def may_fail(ev) -> bool:
     f = ev["fault"]
-    return f["kind"] == "M" and f["mode"] in ("ret_str", "ret_list")
+    return (f["kind"] == "M" and f["mode"] in ("ret_str", "ret_list")) or \
+        (f["kind"] == "P" and f["mode"] in C_MODES_MAY)
 
 
 def judge_event(ev) -> list:
@@ -1319,7 +1330,7 @@ def matrix_jobs(root: int, docs: list) -> list:
     idx = 30_000_000
     rng = core.rng_for(root, PROP, "matrix")
     faults = ([{"kind": "T", "mode": "enospc", "n": 1}] + [{"kind": "V", "mode": m} for m in V_MODES_FAIL]
-              + [{"kind": "P", "mode": m} for m in C_MODES_FAIL]
+              + [{"kind": "P", "mode": m} for m in C_MODES_FAIL + C_MODES_MAY]
               + [{"kind": "P", "mode": m, "die": d} for m in ("fail_before", "fail_after_partial", "fail_after_complete")
                  for d in DIE_MODES[1:]]
               + [{"kind": "M", "mode": m} for m in DUCK_BAD])
